@@ -66,6 +66,7 @@ type vpStore struct {
 	onExpire  func(owner string)  // harness monitor, called when the record is found to have lapsed
 	onWrite   func(by, op string) // harness monitor, called before a successful mutation is applied
 	symErrVal error
+	nWatch, maxWatches int // number of Watch calls so far / bound whose excess is reported as unbounded activity
 	symErr    bool // injected failures carry an arbitrary (symbolic) error text instead of the dialect's time-out error
 	cut       bool // store unreachable: operations fail/hang according to the handle's fault config
 }
@@ -440,6 +441,11 @@ func (k *vpKV) Watch(key string, opts ...interface{}) (Watcher, error) {
 	vpEvent("issue", "watch", k.name)
 	k.st.issued = append(k.st.issued, vpIssue{op: "watch", by: k.name, at: vpNow()})
 	vpYield("watch.issue")
+	k.st.nWatch++
+	if k.st.maxWatches > 0 && k.st.nWatch > k.st.maxWatches {
+		vpAssert("C13.no-unbounded", false) // watch subscriptions pile up
+		vpEndPath("watch-subscriptions")
+	}
 	if k.st.watchFail || k.watchFailLeft > 0 {
 		if k.watchFailLeft > 0 {
 			k.watchFailLeft--
